@@ -1223,9 +1223,14 @@ func onCloseParagraph(source []byte, originalBlock *Block) []*Block {
 	var setextOrphanParagraph *Block
 	if originalBlock.Kind() == SetextHeadingKind {
 		blockStart := originalBlock.inlineChildren[len(originalBlock.inlineChildren)-1].Span().End
-		lineStart := blockStart
-		for source[lineStart] == ' ' || source[lineStart] == '\t' {
-			lineStart++
+		// Find the beginning of the underline by scanning backward from the end of the block:
+		// the line may start with container markers (e.g. "> ") in addition to indentation.
+		lineStart := originalBlock.Span().End
+		for lineStart > blockStart && isSpaceTabOrLineEnding(source[lineStart-1]) {
+			lineStart--
+		}
+		for lineStart > blockStart && (source[lineStart-1] == '=' || source[lineStart-1] == '-') {
+			lineStart--
 		}
 		setextOrphanParagraph = &Block{
 			kind: ParagraphKind,
